@@ -16,7 +16,7 @@ EXHAUSTIVE = True
 REQUIRED = {"single_mode_bin": {"quick": 600, "thorough": 3000}, "random_state": {"quick": 80, "thorough": 250}, "parseval": {"quick": 25, "thorough": 60},
             "channel_independence": {"quick": 15, "thorough": 60}, "average_is_sum_over_count": {"quick": 20, "thorough": 100}}
 ASSUMPTIONS = ["no integer wavenumber vector has a half-integer norm, so the open/closed side of a bin edge is unobservable and not asserted", "float64"]
-TIMEOUT = {"quick": 900, "thorough": 3000}
+TIMEOUT = {"quick": 2400, "thorough": 7200}
 EPS = np.finfo(float).eps
 
 
